@@ -28,9 +28,22 @@ type config struct {
 	N     int     // nodes in the network map (all reachable)
 	Lists [][]int // placement lists (container nodes), one per REP rule
 	Reps  []int
+	// fault pattern of the REPLICATE RPC (HEAD keeps answering 404 for a node without the object):
+	Perm  uint32 // nodes that refuse every replica (they never hold the object)
+	Trans uint32 // nodes that refuse the first replica sent to them and accept afterwards
 }
 
-func (c config) String() string { return fmt.Sprintf("N=%d lists=%v REP=%v", c.N, c.Lists, c.Reps) }
+func (c config) String() string {
+	s := fmt.Sprintf("N=%d lists=%v REP=%v", c.N, c.Lists, c.Reps)
+	if c.Perm|c.Trans != 0 {
+		s += fmt.Sprintf(" replicate-always-refused-by=%0*b refused-once-by=%0*b", c.N, c.Perm, c.N, c.Trans)
+	}
+	return s
+}
+
+// state = holders | (nodes whose one-time refusal is still pending) << 8
+func holders(s uint32) uint32 { return s & 0xff }
+func pending(s uint32) uint32 { return s >> 8 }
 
 // primaries = the first REP nodes of every list.
 func (c config) primaries() (m uint32) {
@@ -55,6 +68,7 @@ type edge struct {
 	to         uint32
 	replTasks  int // replication tasks handed to the replicator
 	replSent   int // replicas actually sent
+	prepErrs   int // replicas that could not even be sent (request could not be built from the object source)
 	dropped    bool
 	headers    int
 	safetyFP   string
@@ -96,7 +110,7 @@ func (s *sys) Key() string {
 	if !s.init {
 		return "pristine"
 	}
-	return fmt.Sprintf("%v|%b", s.cfg, s.mask)
+	return fmt.Sprintf("%v|%b|%b", s.cfg, holders(s.mask), pending(s.mask))
 }
 
 func (s *sys) Check() (string, string) { return s.lastF, s.lastW }
@@ -108,7 +122,11 @@ func (s *sys) Apply(op int) (string, bool) {
 		if s.init {
 			return "", false
 		}
-		s.init, s.mask = true, uint32(op-s.cfg.N+1)
+		m := uint32(op - s.cfg.N + 1)
+		if m&s.cfg.Perm != 0 {
+			return "", false // a node that refuses every replica holds nothing
+		}
+		s.init, s.mask = true, m|s.cfg.Trans<<8
 		return "init", true
 	}
 	if !s.init || s.mask&(1<<uint(op)) == 0 {
@@ -118,7 +136,7 @@ func (s *sys) Apply(op int) (string, bool) {
 	e := step(s.w, s.cfg, &s.mask, op)
 	s.g.put(from, op, e)
 	s.lastF, s.lastW = e.safetyFP, e.safetyWhat
-	obs := fmt.Sprintf("hdr=%d tasks=%d sent=%d drop=%v", min(e.headers, 1), min(e.replTasks, 1), min(e.replSent, 1), e.dropped)
+	obs := fmt.Sprintf("hdr=%d tasks=%d sent=%d refused=%v unsendable=%d drop=%v", min(e.headers, 1), min(e.replTasks, 1), min(e.replSent, 1), e.replSent > len(s.w.ReplOK), min(e.prepErrs, 1), e.dropped)
 	return obs, true
 }
 
@@ -142,7 +160,15 @@ func step(w *polworld.World, cfg config, mask *uint32, local int) (e edge) {
 		return polworld.ErrNotFound
 	}
 	w.Replicate = func(n int) error {
-		*mask |= 1 << uint(n)
+		bit := uint32(1) << uint(n)
+		if cfg.Perm&bit != 0 {
+			return polworld.ErrGeneric
+		}
+		if pending(*mask)&bit != 0 {
+			*mask &^= bit << 8
+			return polworld.ErrGeneric
+		}
+		*mask |= bit
 		return nil
 	}
 	w.Run(object.TypeRegular, []string{"shard0"}, -1, -1)
@@ -150,12 +176,12 @@ func step(w *polworld.World, cfg config, mask *uint32, local int) (e edge) {
 		*mask &^= 1 << uint(local)
 		e.dropped = true
 	}
-	e.to, e.replTasks, e.replSent, e.headers = *mask, len(w.Tasks), len(w.ReplCalls), len(w.HeadCalls)
+	e.to, e.replTasks, e.replSent, e.headers, e.prepErrs = *mask, len(w.Tasks), len(w.ReplCalls), len(w.HeadCalls), len(w.ReplPrepErrs)
 	fail := func(fp, f string, a ...any) {
 		if e.safetyFP == "" {
 			e.safetyFP = fp
-			e.safetyWhat = fmt.Sprintf("%v, holders %05b, policer pass of node %d: ", cfg, before, local) + fmt.Sprintf(f, a...) +
-				fmt.Sprintf(" [HEAD %v ok %v; tasks %+v; sent to %v; deletes %d; holders after %05b]", w.HeadCalls, w.HeadOK, w.Tasks, w.ReplCalls, len(w.Deletes), *mask)
+			e.safetyWhat = fmt.Sprintf("%v, holders %05b, policer pass of node %d: ", cfg, holders(before), local) + fmt.Sprintf(f, a...) +
+				fmt.Sprintf(" [HEAD %v ok %v; tasks %+v; sent to %v acked %v unsendable %v; deletes %d; holders after %05b]", w.HeadCalls, w.HeadOK, w.Tasks, w.ReplCalls, w.ReplOK, w.ReplPrepErrs, len(w.Deletes), holders(*mask))
 		}
 	}
 	if len(w.UnknownCalls) > 0 {
@@ -178,8 +204,13 @@ func step(w *polworld.World, cfg config, mask *uint32, local int) (e edge) {
 		}
 	}
 	// the object must never be lost, and a container node only drops a copy that r others hold
-	if *mask == 0 {
+	if holders(*mask) == 0 {
 		fail("object-lost:last-copy-dropped", "no holder left")
+	}
+	// a replica that was never sent although its candidate was reached in the task: the object source must
+	// serve every candidate of a task (the replicator shares one prepared message between them)
+	if len(w.ReplPrepErrs) > 0 {
+		fail("replicator:candidate-not-contacted:object-source-exhausted-by-an-earlier-candidate", "candidate(s) %v were never sent the replica", w.ReplPrepErrs)
 	}
 	if e.dropped {
 		for i, l := range cfg.Lists {
@@ -213,19 +244,64 @@ func contains(xs []int, v int) bool {
 
 type viol struct{ fp, what string }
 
+// faultClass is the structural class of the configuration's REPLICATE fault pattern (part of fingerprints).
+func faultClass(c config) string {
+	switch {
+	case c.Perm != 0 && c.Trans != 0:
+		return ":a-candidate-always-refuses-replicas+another-refuses-once"
+	case c.Perm != 0:
+		return ":a-candidate-always-refuses-replicas"
+	case c.Trans != 0:
+		return ":a-candidate-refuses-one-replica"
+	}
+	return ""
+}
+
 var firstOverRepl string
 
 func analyse(cfg config, g *graph, strictQuiet bool) (vs []viol, stats map[string]int) {
 	stats = map[string]int{}
 	prim := cfg.primaries()
-	goal := func(s uint32) bool { return s&prim == prim }
+	// goal, computed from the policy: every rule whose primary nodes can all take replicas has the object
+	// on all of them; a rule with a primary that refuses every replica has it on min(REP, number of list
+	// nodes able to take it) nodes of its list.
+	goal := func(s uint32) bool {
+		h := holders(s)
+		for i, l := range cfg.Lists {
+			var pm, lm uint32
+			for j, n := range l {
+				lm |= 1 << uint(n)
+				if j < cfg.Reps[i] {
+					pm |= 1 << uint(n)
+				}
+			}
+			if pm&cfg.Perm == 0 {
+				if h&pm != pm {
+					return false
+				}
+			} else if bits.OnesCount32(h&lm) < min(cfg.Reps[i], bits.OnesCount32(lm&^cfg.Perm)) {
+				return false
+			}
+		}
+		return true
+	}
+	// a container node that refuses every replica is retried in every cycle: replication cannot stop
+	retryForever := cfg.Perm&cfg.container() != 0
+	st := func(s uint32) string {
+		if pending(s) != 0 {
+			return fmt.Sprintf("%0*b(one refusal pending at %0*b)", cfg.N, holders(s), cfg.N, pending(s))
+		}
+		return fmt.Sprintf("%0*b", cfg.N, holders(s))
+	}
 	states := map[uint32]bool{}
 	for k, e := range g.edges {
 		states[k[0]] = true
 		states[e.to] = true
 	}
 	for m := uint32(1); m < 1<<uint(cfg.N); m++ { // every initial distribution is a state even if nothing moves
-		states[m] = true
+		if m&cfg.Perm == 0 {
+			states[m|cfg.Trans<<8] = true
+		}
 	}
 	var order []uint32
 	for s := range states {
@@ -266,7 +342,7 @@ func analyse(cfg config, g *graph, strictQuiet bool) (vs []viol, stats map[strin
 		}
 	}
 	// settled(s): goal reached and replication has stopped for good.
-	settled := func(s uint32) bool { return goal(s) && quiet[s] }
+	settled := func(s uint32) bool { return goal(s) && (quiet[s] || retryForever) }
 
 	for _, s := range order {
 		es, nodes := succ(s)
@@ -274,16 +350,16 @@ func analyse(cfg config, g *graph, strictQuiet bool) (vs []viol, stats map[strin
 			stats["goal_states"]++
 			for i, e := range es {
 				if !goal(e.to) {
-					add("convergence:goal-left", "holders %05b has every primary copy, but a pass of node %d leads to %05b", s, nodes[i], e.to)
+					add("convergence:goal-left", "holders %s satisfies the policy, but a pass of node %d leads to %s", st(s), nodes[i], st(e.to))
 				}
-				if !strictQuiet && e.replSent > 0 {
+				if !strictQuiet && e.replSent > 0 && len(cfg.Lists) > 1 && cfg.Perm|cfg.Trans == 0 {
 					stats["two_rule_passes_replicating_although_all_primaries_hold(not judged)"]++
 					if firstOverRepl == "" {
-						firstOverRepl = fmt.Sprintf("%v: holders %05b (primaries %05b), pass of node %d sends %d replica(s) -> holders %05b", cfg, s, prim, nodes[i], e.replSent, e.to)
+						firstOverRepl = fmt.Sprintf("%v: holders %s (primaries %05b), pass of node %d sends %d replica(s) -> holders %s", cfg, st(s), prim, nodes[i], e.replSent, st(e.to))
 					}
 				}
 				if strictQuiet && e.replSent > 0 {
-					add("convergence:replication-after-primaries-complete", "holders %05b has every primary copy, yet node %d still starts replication (to %05b)", s, nodes[i], e.to)
+					add("convergence:replication-after-primaries-complete", "holders %s has every primary copy, yet node %d still starts replication (to %s)", st(s), nodes[i], st(e.to))
 				}
 			}
 		}
@@ -299,7 +375,7 @@ func analyse(cfg config, g *graph, strictQuiet bool) (vs []viol, stats map[strin
 			}
 		}
 		if !progress {
-			add("convergence:stuck-before-settling", "holders %05b (primaries %05b): no node's pass changes anything, replicas are not restored / replication does not stop", s, prim)
+			add("convergence:stuck-before-settling"+faultClass(cfg), "holders %s (primaries %05b): no node's pass changes anything, replicas are not restored / replication does not stop", st(s), prim)
 		}
 	}
 	// no cycle of state-changing transitions among unsettled states: together with "every unsettled state
@@ -320,7 +396,7 @@ func analyse(cfg config, g *graph, strictQuiet bool) (vs []viol, stats map[strin
 			}
 			switch col[e.to] {
 			case grey:
-				add("convergence:cycle-avoiding-settled-states", "cycle through unsettled states %05b (reached again from %05b)", append(path, s), s)
+				add("convergence:cycle-avoiding-settled-states"+faultClass(cfg), "cycle through unsettled states %05b (reached again from %s)", append(path, s), st(s))
 				return true
 			case white:
 				if dfs(e.to, append(path, s)) {
@@ -351,7 +427,7 @@ func analyse(cfg config, g *graph, strictQuiet bool) (vs []viol, stats map[strin
 			rounds++
 		}
 		if !settled(s) {
-			add("convergence:round-robin-does-not-settle", "from holders %05b, %d round-robin rounds end in %05b", s0, rounds, s)
+			add("convergence:round-robin-does-not-settle"+faultClass(cfg), "from holders %s, %d round-robin rounds end in %s", st(s0), rounds, st(s))
 		}
 		if rounds > maxRounds {
 			maxRounds = rounds
@@ -363,7 +439,7 @@ func analyse(cfg config, g *graph, strictQuiet bool) (vs []viol, stats map[strin
 		if e.replTasks > 0 && e.replSent == 0 && settled(k[0]) {
 			stats["settled_passes_reporting_phantom_shortage(task_without_candidates)"]++
 		}
-		if c := bits.OnesCount32(e.to); c > stats["max_simultaneous_copies"] {
+		if c := bits.OnesCount32(holders(e.to)); c > stats["max_simultaneous_copies"] {
 			stats["max_simultaneous_copies"] = c
 		}
 	}
@@ -462,7 +538,7 @@ func main() {
 			r.Finish()
 		}
 		seqx.Run(r, seqCfg(rp.Config, g))
-		vs, _ := analyse(rp.Config, g, len(rp.Config.Lists) == 1)
+		vs, _ := analyse(rp.Config, g, len(rp.Config.Lists) == 1 && rp.Config.Perm|rp.Config.Trans == 0)
 		for _, v := range vs {
 			r.Violation(v.fp, v.what, rp)
 		}
@@ -472,9 +548,42 @@ func main() {
 	if r.Thorough() {
 		maxN, n2, len2 = 7, 5, 4
 	}
-	cfgs := singleRuleConfigs(3, maxN)
+	if err := polworld.CalibrateAgainstSDK(); err != nil {
+		r.Fatal("%v", err)
+	}
+	// fault patterns of the REPLICATE RPC: none; one node always refusing; one node refusing once;
+	// thorough: additionally two always-refusing nodes and always-refusing + refusing-once pairs
+	withFaults := func(base []config, pairs bool) (out []config) {
+		for _, c := range base {
+			out = append(out, c)
+			for i := 0; i < c.N; i++ {
+				p, t := c, c
+				p.Perm, t.Trans = 1<<uint(i), 1<<uint(i)
+				out = append(out, p, t)
+			}
+			if !pairs {
+				continue
+			}
+			for i := 0; i < c.N; i++ {
+				for j := 0; j < c.N; j++ {
+					if i == j {
+						continue
+					}
+					q := c
+					q.Perm, q.Trans = 1<<uint(i), 1<<uint(j)
+					out = append(out, q)
+					if i < j {
+						q.Perm, q.Trans = 1<<uint(i)|1<<uint(j), 0
+						out = append(out, q)
+					}
+				}
+			}
+		}
+		return
+	}
+	cfgs := withFaults(singleRuleConfigs(3, maxN), r.Thorough())
 	single := len(cfgs)
-	cfgs = append(cfgs, twoRuleConfigs(n2, len2)...)
+	cfgs = append(cfgs, withFaults(twoRuleConfigs(n2, len2), false)...)
 	exhaustive := true
 	agg := map[string]int{}
 	obs := 0
@@ -495,7 +604,7 @@ func main() {
 			obs = res.ObsClasses
 		}
 		_ = before
-		vs, st := analyse(cfg, g, ci < single)
+		vs, st := analyse(cfg, g, ci < single && cfg.Perm|cfg.Trans == 0)
 		for _, v := range vs {
 			r.Violation(v.fp, v.what, replayT{Config: cfg})
 		}
